@@ -35,6 +35,7 @@ type Server struct {
 	LastIOErrno  int
 	LastSQLErrno int
 	SSReg        bool // IO thread registered as semi-sync when it last started
+	StickyErr    bool // replication errors come back after every START (permanent breakage)
 
 	Lag            *float64 // reported Seconds_Behind_Source when both threads run (nil => 0)
 	DownloadRate   int64    // transactions per pump step the IO thread fetches (0 = unlimited)
@@ -160,6 +161,9 @@ type World struct {
 	AfterStmt  []func(w *World, c *StmtCtx)
 	// OnAck is called under the mutex whenever a transaction is acknowledged.
 	OnAck []func(w *World, t *Txn)
+	// OnChange is called under the mutex after every ground-truth change of a server
+	// (statement effect, crash, restart, manual change).
+	OnChange []func(w *World)
 
 	Heartbeat int64 // advanced by the pump; read by the stall watchdog
 }
@@ -202,6 +206,11 @@ func (w *World) LogLocked(e Event) Event {
 	e.Seq = w.seq
 	e.T = time.Since(w.T0)
 	w.log = append(w.log, e)
+	if e.Mut && (e.Kind == "world" || (e.Kind == "sql" && e.Phase == "ret")) {
+		for _, f := range w.OnChange {
+			f(w)
+		}
+	}
 	return e
 }
 
